@@ -5,8 +5,11 @@
 package litefs
 
 // Every database registered in a store is a well-formed DB object of that store.
+// Object invariant of a registered database: structure, advisory locks, WAL overlay keys, halt-lock cells.
+// NewDB establishes it (modulo the trusted lock numbering) and every public method preserves it.
+//@ pred dbInv(db *DB) = dbWF(db) && locksWF(db) && walKeysPositive(db) && haltInv(db)
 //@ pred storeWF(s *Store) = s != nil && s.OS != nil && s.dbs != nil &&
-//@      (forall n string :: has(s.dbs, n) && s.dbs[n] != nil ==> dbWF(s.dbs[n]) && s.dbs[n].store == s)
+//@      (forall n string :: has(s.dbs, n) && s.dbs[n] != nil ==> dbInv(s.dbs[n]) && s.dbs[n].store == s)
 
 // (reading a nil map is legal in Go: only s != nil is needed for safety; the object invariant of the result is
 // available to callers that have the store invariant)
@@ -14,7 +17,7 @@ package litefs
 //@   requires  s != nil
 //@   modifies
 //@   ensures   result == s.dbs[name]
-//@   ensures   old(storeWF(s)) && result != nil ==> dbWF(result) && result.store == s
+//@   ensures   old(storeWF(s)) && result != nil ==> dbInv(result) && result.store == s
 //@   nopanic
 
 // ===========================================================================
@@ -97,19 +100,6 @@ package litefs
 //@   nopanic
 
 // ===========================================================================
-// db.go — AcquireWriteLock as used by the replication paths (callback fn == nil): partial correctness of the retry
-// loop around TryAcquireWriteLock. (The HALT-lock caller passes a callback; a dynamic call is outside this contract.)
-//@ func (db *DB) AcquireWriteLock [C06,C10,C11]
-//@   requires  db != nil && locksWF(db) && typeis(aload(db.mode), DBMode) && ctx != nil && isnil(fn)
-//@   loop 1 invariant db != nil && locksWF(db) && typeis(aload(db.mode), DBMode) && ctx != nil && isnil(fn) && ticker != nil
-//@   loop 1 modifies class("F|litefs.RWMutex|sharedN"), class("F|litefs.RWMutex|excl"), class("G|litefs.RWMutex.S"), class("F|litefs.RWMutexGuard|*"), class("F|litefs.GuardSet|*"), class("S|any")
-//@   modifies  class("F|litefs.RWMutex|sharedN"), class("F|litefs.RWMutex|excl"), class("G|litefs.RWMutex.S"), class("F|litefs.RWMutexGuard|*"), class("F|litefs.GuardSet|*"), class("S|any")
-//@   ensures   locksWF(db)
-//@   ensures   err == nil ==> ret0 != nil && fresh(ret0) && guardSetWF(ret0, db)
-//@   ensures   err == nil && dbModeIs(db, DBModeRollback) ==> holdsWriteLockRollback(ret0)
-//@   ensures   err == nil && !dbModeIs(db, DBModeRollback) ==> holdsWriteLockWAL(ret0)
-//@   ensures   err != nil ==> ret0 == nil
-//@   nopanic
 
 // ===========================================================================
 // store.go — processLTXStreamFrame: what a replica does with one LTX frame of the primary's stream
@@ -121,7 +111,7 @@ package litefs
 // deferred: Remove(tmp) once Create was attempted, GuardSet.Unlock once the lock was acquired.
 // Own frame (hdr.NodeID == s.id): Verify + discard, no file system or database operation at all.
 //@ func (s *Store) processLTXStreamFrame [C06,C09,C05,C01]
-//@   requires  s != nil && s.OS != nil && s.dbs != nil && frame != nil && src != nil && ctx != nil
+//@   requires  s != nil && s.OS != nil && s.dbs != nil && frame != nil && src != nil && ctx != nil && s.Exit != nil && storeDBCountMetric != nil
 //@   mergeexits
 //@   ghost locked int = 0
 //@   ghost own bool = false
@@ -144,7 +134,7 @@ package litefs
 //@   on call ltx.Decoder.Verify assert locked == 1 && !verified && (own ? hdr.NodeID == s.id && created == 0 : sought) ; then verified = (ret0 == nil)
 //@   on call os.File.Seek assert synced && !sought && arg0 == f && arg1 == 0 && arg2 == 0 ; then sought = (ret1 == nil)
 //@   on call io.Copy assert locked == 1 && (own ? verified && created == 0 : created == 1 && !copied) ; then copied = (!own && ret1 == nil)
-//@   on call DB.UnsetRemoteHaltLock assert !own && created == 0 && arg0 == db
+//@   on call DB.unsetRemoteHaltLock assert !own && created == 0 && arg0 == db && arg3
 //@   on call OS.Create op "PROCESSLTX" assert locked == 1 && !own && hdr.NodeID != s.id && isSnap == (hdr.MinTXID == 1) && created == 0 && arg1 == tmpPath && acceptableAt(hdr, posOf(db)) ; then created = (ret1 == nil ? 1 : 2)
 //@   on call os.File.Sync assert copied && !synced && arg0 == f ; then synced = (ret0 == nil)
 //@   on call OS.Rename op "PROCESSLTX" assert locked == 1 && !own && synced && !renamed && arg1 == tmpPath && arg2 == path && isSnap == (hdr.MinTXID == 1) && acceptableAt(hdr, posOf(db)) ; then renamed = (ret0 == nil)
@@ -160,7 +150,7 @@ package litefs
 //@   proves    !renamed ==> !cleaned && applyN == 0
 //@   proves    own ==> created == 0 && !renamed && !cleaned && applyN == 0
 // The file is validated (Decoder.Verify on the fsynced temp file) before it is renamed into the chain; the old chain
-// has not been touched at that point; UnsetRemoteHaltLock is always called with the write lock held.
+// has not been touched at that point; the stale remote halt lock is cleared with the write lock held, and the callee is told so (writeLocked).
 //@   on call OS.Rename op "PROCESSLTX" assert verified && !cleaned
-//@   on call DB.UnsetRemoteHaltLock assert locked == 1
+//@   on call DB.unsetRemoteHaltLock assert locked == 1
 //@   nopanic
